@@ -86,6 +86,15 @@ Proof.
       unfold good_at in G. apply negb_true_iff in G. rewrite G in Hl. lia.
 Qed.
 
+(* A span of no width -- the end of a directive that ends too early, the end of a file that leaves a region open: what the preprocessor
+   reports there -- is safe at every position of every text, also between a carriage return and its line feed. *)
+Theorem snippet_safe_zero_width f p rest : snippet_safe (p ++ rest) (span_of f (pos p) (pos p)).
+Proof.
+  unfold snippet_safe, span_of, hs_of, he_of. cbn [sp_srow sp_scol sp_erow sp_ecol]. rewrite !pos_eq. cbn [l_row l_col].
+  split; [lia|]. split; [lia|]. split; [lia|]. split; [right; split; lia|].
+  intros i line Hi _. destruct (Nat.eqb (S i) (1 + count_nl p)) eqn:E; [lia|]. apply Nat.eqb_neq in E. lia.
+Qed.
+
 (* ---------- the lexer's tokens lie between such positions, in order ---------- *)
 Definition tok_span_ok (text : list N) (a : nat) (s e : loc) (b : nat) : Prop :=
   exists p1 p2 rest, text = p1 ++ p2 ++ rest /\ length p1 = a /\ b = length p1 + length p2 /\ s = pos p1 /\ e = pos (p1 ++ p2) /\ good_at p1 (p2 ++ rest) = true.
